@@ -67,6 +67,7 @@ type Scenario struct {
 	Trickle     bool           `json:"trickle,omitempty"`         // the stalled frame arrives in three pieces, 1.5 and 1 read timeouts apart (each piece makes progress, none arrives in time)
 	CutAt       int            `json:"cut_at,omitempty"`          // tcp, one peer: its n-th frame (1-based) announces its full length but only CutOctets of the body are sent before the peer closes
 	CutOctets   int            `json:"cut_octets,omitempty"`      // body octets sent (chosen on a question / record boundary as often as not)
+	ShutCtxMs   int            `json:"shut_ctx_ms,omitempty"`     // with ShutAfter: the server is stopped with ShutdownContext and a context of this many milliseconds - which may well end before the messages in hand are through; a plain Shutdown follows
 	ShutAfter   int            `json:"shut_after,omitempty"`      // udp: Shutdown is called after this many steps, while peers are still sending (0 = after they are done)
 	Transient   []int          `json:"transient,omitempty"`       // these accept / datagram-read attempts fail with a temporary, non-timeout error
 	UDPSock     bool           `json:"udp_sock,omitempty"`        // udp: the server runs on a UDP socket (SessionUDP branch) where the build has that seam
@@ -153,6 +154,9 @@ func Gen(seed uint64, tier string) any {
 	if sc.Transport == "udp" && core.Chance(r, 25) {
 		sc.ShutAfter = 5 + r.IntN(60)
 		sc.Dup = 0
+		if core.Chance(r, 40) {
+			sc.ShutCtxMs = core.Pick(r, 1, 1, 3, 20)
+		}
 	}
 	n := 1 + r.IntN(12)
 	if tier == "thorough" {
@@ -264,6 +268,12 @@ func genPacket(r interface {
 	if rr.IntN(12) == 0 {
 		m.Question = append(m.Question, dns.Question{Name: "second.test.", Qtype: dns.TypeA, Qclass: dns.ClassINET})
 		note = "two-questions"
+	}
+	if rr.IntN(14) == 0 {
+		// two OPT records (RFC 6891 allows one): odd, but nothing a decoder cannot read - and within what the
+		// default policy lets through
+		m.Extra = []dns.RR{&dns.OPT{Hdr: dns.RR_Header{Name: ".", Rrtype: dns.TypeOPT, Class: 1232}}, &dns.OPT{Hdr: dns.RR_Header{Name: ".", Rrtype: dns.TypeOPT, Class: 4096}}}
+		note = "two-opt"
 	}
 	b, err := m.Pack()
 	if err != nil {
@@ -409,6 +419,8 @@ type adm struct {
 	lifeFin  bool
 	serveRet bool
 	serveErr string
+
+	ctxExpired bool // the ShutdownContext that stopped the server gave up waiting: replies of handlers still at work may be lost
 }
 
 //go:norace
@@ -688,6 +700,25 @@ func (l admLife) RunEvent(time.Time) {
 			return
 		}
 		a.k.Sleep("life.grace", time.Second)
+	}
+	if a.sc.ShutCtxMs > 0 && a.sc.ShutAfter > 0 {
+		// a context that may end before the messages in hand are through: they are still the server's to finish
+		for i := 0; i < 100; i++ {
+			ctx := common.NewCtx(a.k, time.Duration(a.sc.ShutCtxMs)*time.Millisecond, "shutdown")
+			err := a.srv.ShutdownContext(ctx)
+			if err == nil {
+				return
+			}
+			if ctx.Expired() && err == ctx.Err() {
+				a.k.Lock()
+				a.ctxExpired = true // (the socket is closed under the handlers still at work: their replies may not get out)
+				a.k.BumpLocked("fault.shutdown_context_expired_during_traffic")
+				a.k.Unlock()
+				return
+			}
+			a.k.Sleep("life.retry", time.Millisecond) // (not started yet)
+		}
+		return
 	}
 	for i := 0; i < 100; i++ {
 		if err := a.srv.Shutdown(); err == nil {
@@ -984,6 +1015,9 @@ func (a *adm) judge() {
 		}
 		if e.either {
 			// NSCOUNT == 1 under the default policy: handled or FORMERR, once per copy
+			if a.ctxExpired {
+				continue
+			}
 			if got+count(1) != e.copies && got != e.copies {
 				res.Fail("D1", "either-disposition", "message id %d (one authority record) arrived %d time(s): handler ran %d time(s), %d FORMERR replies", id, e.copies, got, count(1))
 				return
@@ -997,7 +1031,7 @@ func (a *adm) judge() {
 				res.Fail("D1", "handler-count", "message id %d passed the policy and decodes; it arrived %d time(s) but the handler ran %d time(s)", id, e.copies, got)
 				return
 			}
-			if len(reps) != e.copies {
+			if len(reps) != e.copies && !(a.ctxExpired && len(reps) < e.copies) {
 				res.Fail("D1", "reply-count", "message id %d was handled %d time(s) but %d replies carry its id", id, got, len(reps))
 				return
 			}
@@ -1010,7 +1044,7 @@ func (a *adm) judge() {
 				res.Fail("D1", "handler-on-rejected", "message id %d must be refused (%s) but the handler ran %d time(s)", id, e.disp, got)
 				return
 			}
-			if len(reps) != e.copies || count(rc) != e.copies {
+			if (len(reps) != e.copies || count(rc) != e.copies) && !(a.ctxExpired && len(reps) < e.copies && count(rc) == len(reps)) {
 				res.Fail("D3", "reject-reply", "message id %d (%s, %d copy/ies): expected %d reply/ies with rcode %d, got %d replies (%d with that rcode)", id, e.disp, e.copies, e.copies, rc, len(reps), count(rc))
 				return
 			}
